@@ -2,9 +2,10 @@
 EXTENDS TimeZoneMachine, TLC, Json
 H == 3600
 \* offsets and changes incl. 30 min, LMT-like seconds, +-23 h / 24 h / 26 h jumps
-Offs == {0, H, -5 * H, 5 * H + 1800, -(4 * H + 56 * 60 + 2), -10 * H, 14 * H, -12 * H}
+\* -(44 min 30 s): a negative offset exactly half-way between two minutes (Africa/Monrovia until 1972) - the tie of match-minutes rounding
+Offs == {0, H, -5 * H, 5 * H + 1800, -(4 * H + 56 * 60 + 2), -10 * H, 14 * H, -12 * H, -(44 * 60 + 30)}
 Ats == {-86400, 0, 7200, 86400 + 1800, 2 * 86400}
-Z0 == {[init |-> o, trans |-> <<>>] : o \in {0, 5 * H + 1800, -(4 * H + 56 * 60 + 2)}}
+Z0 == {[init |-> o, trans |-> <<>>] : o \in {0, 5 * H + 1800, -(4 * H + 56 * 60 + 2), -(44 * 60 + 30), 5 * H + 30}}
 Z1 == {[init |-> a, trans |-> <<[at |-> t, off |-> b]>>] : a \in Offs, b \in Offs, t \in {0, 7200}} 
 \* two transitions: big jumps two days apart (date-line style skip and the reverse), small DST-like pairs two hours apart
 Z2 == {[init |-> a, trans |-> <<[at |-> 0, off |-> b], [at |-> 2 * 86400, off |-> c]>>] : a \in {0, -5 * H, -10 * H}, b \in {H, -4 * H, 14 * H, 16 * H}, c \in {0, -5 * H, -10 * H}}
